@@ -176,6 +176,9 @@ def run(pm, ctx):
     ctx.extra['functions_in_scope'] = len(reach)
     registry_typestate(pm, ctx)
     empty_ast_guard(pm, ctx)
+    ast_field_totality(pm, ctx)
+    lexer_state_stack(pm, ctx)
+    import_self_precondition(pm, ctx)
 
     implicit = implicit_sites(pm, ctx, reach, irf)
     dead_defaults = {}
@@ -1046,3 +1049,221 @@ def invalid_spec_objects(pm, ctx, reach):
     ctx.check('C03-R5', ok, 'cli.main prints path:line: error: msg and exits 1 on InvalidSpec',
               main.loc, msg='cli.main no longer converts InvalidSpec into the documented '
                             'diagnostic and exit status', key='C03-R5|stone.cli.main|handler')
+
+
+# ---------------------------------------------------------------------------
+# R10-R12: three implicit-raise idioms found after the fifth seeding round (each had a
+# failing spec against the real code: F50-F52)
+
+from ..dataflow import defs  # noqa: E402
+
+
+def ast_field_totality(pm, ctx):
+    """R10: the elements of a grammar list whose productions build *different* AST classes
+    (`field : ... -> AstField | AstVoidField`) do not all offer the same attributes; every
+    read, in the frontend, of an attribute only some of them have must be dominated by a
+    class test on the element (or happen in a function all of whose callers did the test)."""
+    from .. import grammar
+    rule = 'C03-R10'
+    ctx.rule(rule, 'elements of a heterogeneous grammar list (field -> AstField | AstVoidField) '
+                   'are class-tested before an attribute only some of them have is read')
+    g = grammar.spec_grammar(pm)
+    astmod = 'stone.frontend.ast'
+    yields = {}
+    for name, (f, alts) in g['funcs'].items():
+        made = set()
+        for st in own_nodes(f.node):
+            # the class of the production's value: `p[0] = AstX(...)`
+            if isinstance(st, ast.Assign) and len(st.targets) == 1 and \
+                    isinstance(st.targets[0], ast.Subscript) and \
+                    isinstance(st.targets[0].slice, ast.Constant) and \
+                    st.targets[0].slice.value == 0 and isinstance(st.value, ast.Call) and \
+                    isinstance(st.value.func, ast.Name) and \
+                    (astmod + '.' + st.value.func.id) in pm.classes:
+                made.add(st.value.func.id)
+        for lhs, _ in alts:
+            yields.setdefault(lhs, set()).update(made)
+
+    def attrs_of(cname):
+        c = pm.cls(astmod + '.' + cname)
+        out = set()
+        for k in pm.mro(c):
+            out.update(k.methods)
+            out.update(k.attrs)
+            for m in k.methods.values():
+                for n in own_nodes(m.node):
+                    if isinstance(n, ast.Attribute) and isinstance(n.ctx, ast.Store) and \
+                            isinstance(n.value, ast.Name) and n.value.id == 'self':
+                        out.add(n.attr)
+        return out
+    n_inst = 0
+    for nt, classes in sorted(yields.items()):
+        if len(classes) < 2:
+            continue
+        table = {c: attrs_of(c) for c in classes}
+        partial = set().union(*table.values()) - set.intersection(*table.values())
+        partial = {a for a in partial if not a.startswith('__')}
+        if not partial:
+            continue
+        lacking = {a: sorted(c for c in classes if a not in table[c]) for a in partial}
+        # every read of a partial attribute in the IR generator
+        for f in pm.funcs_in('stone.frontend.ir_generator'):
+            pi = None
+            for n in own_nodes(f.node):
+                if not (isinstance(n, ast.Attribute) and isinstance(n.ctx, ast.Load) and
+                        n.attr in partial and isinstance(n.value, ast.Name)):
+                    continue
+                var = n.value.id
+                origin = _element_origin(pm, f, var, n)
+                if origin is None:
+                    continue
+                n_inst += 1
+                if pi is None:
+                    pi = path_info(f.node)
+                tested = _class_tested(pi.at(n), var, lacking[n.attr])
+                if not tested and origin == 'param':
+                    tested = _callers_test(pm, f, var, lacking[n.attr])
+                ctx.check(rule, tested,
+                          '%s: %s.%s read only after the element was class-tested' % (
+                              f.short, var, n.attr),
+                          '%s:%d' % (f.module.relpath, n.lineno),
+                          msg='%s reads %s.%s of an element of a %s list, but %s has no such '
+                              'attribute and no class test dominates the read: AttributeError, '
+                              'not a spec error' % (f.short, var, n.attr, nt,
+                                                    '/'.join(lacking[n.attr])),
+                          key='%s|%s|%s.%s' % (rule, f.qualname, var, n.attr))
+    ctx.floor(rule, n_inst, 2, 'reads of attributes only some list elements have')
+
+
+LIST_ATTRS = ('fields', 'params')
+
+
+def _element_origin(pm, f, var, at):
+    """'loop' when ``var`` iterates over `<x>.fields` / `<x>.params` of an AST node,
+    'param' when it is a parameter that some caller binds to such a loop variable."""
+    d = defs(f.node)
+    for kind, v, stmt in d.values.get(var, []):
+        if kind.startswith('iter') and isinstance(v, ast.Attribute) and v.attr in LIST_ATTRS:
+            base = unparse(v.value)
+            if base in ('item', 'patched_item', 'existing_item') or base.endswith('_ast_node') \
+                    or base.endswith('item'):
+                return 'loop'
+    if var in d.params and not d.values.get(var):
+        for g in pm.funcs_in('stone.frontend.ir_generator'):
+            for c in own_nodes(g.node):
+                if isinstance(c, ast.Call) and call_name(c) == f.name:
+                    idx = [p for p in f.params if p != 'self'].index(var) \
+                        if var in f.params else None
+                    args = list(c.args)
+                    if idx is not None and idx < len(args) and isinstance(args[idx], ast.Name) and \
+                            _element_origin(pm, g, args[idx].id, c) == 'loop':
+                        return 'param'
+    return None
+
+
+def _class_tested(conds, var, lacking):
+    """Some atom on the path excludes every class that lacks the attribute."""
+    for e, pol in conds:
+        if isinstance(e, ast.Call) and call_name(e) == 'isinstance' and len(e.args) == 2 and \
+                unparse(e.args[0]) == var:
+            t = e.args[1]
+            names = [unparse(x) for x in (t.elts if isinstance(t, ast.Tuple) else [t])]
+            if not pol and all(l in names for l in lacking):
+                return True
+            if pol and not any(l in names for l in lacking):
+                return True
+    return False
+
+
+def _callers_test(pm, f, var, lacking):
+    sites = []
+    for g in pm.funcs_in('stone.frontend.ir_generator'):
+        for c in own_nodes(g.node):
+            if isinstance(c, ast.Call) and call_name(c) == f.name:
+                sites.append((g, c))
+    if not sites:
+        return False
+    idx = [p for p in f.params if p != 'self'].index(var)
+    for g, c in sites:
+        if idx >= len(c.args) or not isinstance(c.args[idx], ast.Name):
+            return False
+        if not _class_tested(path_info(g.node).at(c), c.args[idx].id, lacking):
+            return False
+    return True
+
+
+def lexer_state_stack(pm, ctx):
+    """R11: ply's ``pop_state`` raises IndexError on an empty state stack; a closing token
+    the input need not balance must not pop unconditionally."""
+    rule = 'C03-R11'
+    ctx.rule(rule, 'the lexer pops its state stack only when the stack is known to be non-empty')
+    n = 0
+    for f in pm.funcs_in('stone.frontend.lexer'):
+        pi = None
+        for c in own_nodes(f.node):
+            if isinstance(c, ast.Call) and isinstance(c.func, ast.Attribute) and \
+                    c.func.attr == 'pop_state':
+                n += 1
+                pi = pi or path_info(f.node)
+                guarded = any(pol and 'lexstatestack' in unparse(e) for e, pol in pi.at(c))
+                for t, part, k in pi.trys_at(c):
+                    if part == 'body' and any(
+                            h.type is None or any(x in unparse(h.type) for x in
+                                                  ('IndexError', 'LookupError', 'Exception'))
+                            for h in t.handlers):
+                        guarded = True
+                ctx.check(rule, guarded, '%s pops the lexer state only when one was pushed' % f.short,
+                          '%s:%d' % (f.module.relpath, c.lineno),
+                          msg='%s calls pop_state() unconditionally: a closing token without its '
+                              'opening one (a stray `)`) pops an empty stack -> IndexError, not a '
+                              'spec error' % f.short, key='%s|%s|pop_state' % (rule, f.qualname))
+    ctx.floor(rule, n, 1, 'pop_state calls in the lexer')
+
+
+def import_self_precondition(pm, ctx):
+    """R12: ApiNamespace.add_imported_namespace asserts that a namespace does not import
+    itself; every caller must establish that (a comparison of the two names on its path, or a
+    lookup of the namespace name in an environment, which never holds the own namespace)."""
+    rule = 'C03-R12'
+    ctx.rule(rule, 'callers of add_imported_namespace establish its precondition (not the own '
+                   'namespace)')
+    api = pm.func('stone.ir.api.ApiNamespace.add_imported_namespace')
+    has_assert = any(isinstance(n, ast.Assert) and 'self.name' in unparse(n.test)
+                     for n in own_nodes(api.node))
+    if not has_assert:
+        ctx.ok(rule, 'add_imported_namespace no longer asserts on its argument', api.loc)
+        return
+    n = 0
+    for f in list(pm.funcs_in('stone.frontend')) + list(pm.funcs_in('stone.ir')):
+        pi = None
+        for c in own_nodes(f.node):
+            if not (isinstance(c, ast.Call) and call_name(c) == 'add_imported_namespace'):
+                continue
+            n += 1
+            pi = pi or path_info(f.node)
+            ok = False
+            ns_names = set()
+            for a in c.args[:1]:
+                for x in ast.walk(a):
+                    if isinstance(x, ast.Attribute):
+                        ns_names.add(unparse(x))
+            for e, pol in pi.at(c):
+                t = unparse(e)
+                if isinstance(e, ast.Compare) and len(e.ops) == 1 and '.name' in t and (
+                        (isinstance(e.ops[0], ast.NotEq) and pol) or
+                        (isinstance(e.ops[0], ast.Eq) and not pol)):
+                    ok = True       # X.name != namespace.name
+                if isinstance(e, ast.Compare) and len(e.ops) == 1 and \
+                        isinstance(e.ops[0], (ast.In, ast.NotIn)) and \
+                        unparse(e.comparators[0]) == 'env' and \
+                        (isinstance(e.ops[0], ast.In) == pol):
+                    ok = True       # the namespace name was found in the environment:
+                    #                 _add_imports_to_env never binds the own namespace there
+            ctx.check(rule, ok, '%s: add_imported_namespace called for a namespace known to differ '
+                                'from the importing one' % f.short,
+                      '%s:%d' % (f.module.relpath, c.lineno),
+                      msg='%s calls add_imported_namespace without establishing that the imported '
+                          'namespace is not the importing one: `ns.T` written inside namespace ns '
+                          'trips the assertion (AssertionError, not a spec error)' % f.short,
+                      key='%s|%s|import-self' % (rule, f.qualname))
+    ctx.floor(rule, n, 4, 'calls of add_imported_namespace')
